@@ -793,11 +793,20 @@ def read_cache_entry(
         name, _consumed = _decompress_path_from_stream(f, previous_path)
     else:
         # Versions < 4: regular name reading
+        name_start = f.tell()
         name = f.read(flags & FLAG_NAMEMASK)
+        if flags & FLAG_NAMEMASK == FLAG_NAMEMASK:
+            # The 12-bit length field saturates; longer names run up to
+            # their NUL terminator.
+            while True:
+                char = f.read(1)
+                if not char or char == b"\0":
+                    break
+                name += char
 
     # Padding:
     if version < 4:
-        real_size = (f.tell() - beginoffset + 8) & ~7
+        real_size = (name_start + len(name) - beginoffset + 8) & ~7
         f.read((beginoffset + real_size) - f.tell())
 
     return SerializedIndexEntry(
@@ -836,7 +845,7 @@ def write_cache_entry(
         # Version 4: use compression but set name_len to actual filename length
         # This matches how C Git implements index v4 flags
         compressed_path = _compress_path(entry.name, previous_path)
-    flags = len(entry.name) | (entry.flags & ~FLAG_NAMEMASK)
+    flags = min(len(entry.name), FLAG_NAMEMASK) | (entry.flags & ~FLAG_NAMEMASK)
 
     if entry.extended_flags:
         flags |= FLAG_EXTENDED
